@@ -182,6 +182,8 @@ pub(crate) enum InnerError {
     IllegalStateInPixel { backtrace: Backtrace },
     /// DICOM value not found after non-empty element header
     MissingElementValue { backtrace: Backtrace },
+    /// The data source is no longer available after a failed attempt to set up the data set parser
+    SourceUnavailable { backtrace: Backtrace },
     /// Unrecognized transfer syntax {ts_uid}
     UnrecognizedTransferSyntax {
         ts_uid: String,
@@ -448,14 +450,16 @@ where
                 odd_length,
                 charset_override,
             } => {
-                let src = src.take().unwrap();
-
                 // look up transfer syntax
+                // (before taking the reader, so that it is not lost on failure)
                 let ts = ts_index
                     .get(ts_uid)
                     .context(UnrecognizedTransferSyntaxSnafu {
                         ts_uid: ts_uid.to_string(),
                     })?;
+
+                // the reader is gone if a previous attempt to create the parser failed
+                let src = src.take().context(SourceUnavailableSnafu)?;
 
                 let mut options = LazyDataSetReaderOptions::default();
                 options.odd_length = *odd_length;
